@@ -154,7 +154,10 @@ func runC17(p *engine.Prog, r *engine.Report) {
 			return true, "fresh slice"
 		}
 		switch x := v.(type) {
-		case *ssa.Extract: // range value over a local map of fresh slices
+		case *ssa.Extract: // value of a comma-ok lookup; range value over a local map of fresh slices
+			if lk := asLookup(x); lk != nil {
+				return fresh(fn, lk, depth+1)
+			}
 			if nx, ok := x.Tuple.(*ssa.Next); ok && x.Index == 2 {
 				if rg, ok := nx.Iter.(*ssa.Range); ok {
 					if mm, ok := rg.X.(*ssa.MakeMap); ok {
@@ -291,8 +294,8 @@ func runC17(p *engine.Prog, r *engine.Report) {
 				if !ok || mu.Map != ssa.Value(mm) {
 					continue
 				}
-				lk, ok := mu.Value.(*ssa.Lookup)
-				if !ok {
+				lk := asLookup(mu.Value)
+				if lk == nil {
 					probs = append(probs, "new "+f.Name()+" receives "+fi.T(mu.Value).S+" instead of the old entry")
 					continue
 				}
@@ -307,6 +310,33 @@ func runC17(p *engine.Prog, r *engine.Report) {
 				// only condition: the job had an entry
 				for _, g := range extraGuardsExcept(fi, mu.Block(), []string{"has(", "eq(nil,", ",nil)"}) {
 					probs = append(probs, "an old entry is kept only under the extra condition "+g)
+				}
+				// ... and the other way round: whenever the job had an entry it is kept (decided over all branch
+				// conditions of the loop body, so that alternatives like "unless its relabeling changed" are seen)
+				if lp := loopOf(fi, mu.Block()); lp != nil {
+					var bodyEntry *ssa.BasicBlock
+					for _, sc := range lp.header.Succs {
+						if lp.blocks[sc.Index] {
+							bodyEntry = sc
+						}
+					}
+					var had *engine.Formula
+					for _, in := range allInstrs(ap) {
+						lk2, ok := in.(*ssa.Lookup)
+						if !ok || !lk2.CommaOk || fi.T(lk2.Index).S != fi.T(mu.Key).S {
+							continue
+						}
+						if _, ok := loadOfField(lk2.X, fAct); ok {
+							had = engine.A("has(" + ownBase(fi, lk2) + ")")
+						}
+					}
+					if had != nil && bodyEntry != nil {
+						if v := fi.ViewAll(had, bodyEntry); v == nil {
+							probs = append(probs, "too many conditions in the reload loop to decide that every job with an entry keeps it")
+						} else if !v.ImpliedBy(mu.Block(), had) {
+							probs = append(probs, "a job of the new configuration that had an entry in "+f.Name()+" does not always keep it (there is a path through the loop body that skips the copy although the entry exists)")
+						}
+					}
 				}
 				kept = true
 			}
@@ -558,3 +588,18 @@ func runC17(p *engine.Prog, r *engine.Report) {
 }
 
 func controlsC17(p *engine.Prog) []Control { return nil }
+
+// asLookup: v is a map lookup, or the value of a comma-ok map lookup.
+func asLookup(v ssa.Value) *ssa.Lookup {
+	switch x := v.(type) {
+	case *ssa.Lookup:
+		if !x.CommaOk {
+			return x
+		}
+	case *ssa.Extract:
+		if lk, ok := x.Tuple.(*ssa.Lookup); ok && lk.CommaOk && x.Index == 0 {
+			return lk
+		}
+	}
+	return nil
+}
